@@ -64,7 +64,7 @@ def run(tier, seed, replay=None):
             return chk.finish()
         vlib.tlc_expect_ok(res, "Tissue")
         scns = scenarios(tier, seed)
-    variants = ["m1d0"] if tier == "quick" or replay else ["m1d0", "m2d0"]
+    variants = ["m1d0"] if replay else ["m1d0", "m2d0"]       # both coupling models in both tiers
     nev = 0
     for v in variants:
         results = tc.run_scenarios(v, [dict(s, name=s["name"] + "_" + v) for s in scns], work)
